@@ -557,6 +557,21 @@ impl<'tcx> Cx<'tcx> {
             }
         }
         let _ = write!(o, ",\"doc\":{},\"inline\":{}", js(&doc), inline);
+        // documentation of the trait item an impl method implements (docs usually live on the trait)
+        let mut trait_doc = String::new();
+        if matches!(kind, DefKind::AssocFn) {
+            if let Some(ti) = tcx.trait_item_of(did) {
+                if ti != did {
+                    for a in tcx.get_all_attrs(ti) {
+                        if let Some(d) = a.doc_str() {
+                            trait_doc.push_str(d.as_str());
+                            trait_doc.push('\n');
+                        }
+                    }
+                }
+            }
+        }
+        let _ = write!(o, ",\"trait_doc\":{}", js(&trait_doc));
         // name
         if let Some(n) = tcx.opt_item_name(did) {
             let _ = write!(o, ",\"name\":{}", js(n.as_str()));
